@@ -51,7 +51,7 @@ def tokens(node, style='min', sep=','):
     if k == 'cell':
         return [node[1]]
     if k == 'range':
-        return [node[1] + ':' + node[2]]
+        return [node[1], ':', node[2]]        # three tokens: white space may stand on either side of the colon
     if k == 'str':
         return [node[2] + node[1] + node[2]]
     if k == 'errlit':
